@@ -77,4 +77,16 @@ Section ArgSites.
     unfold noact. cbn [filter is_action tk ActionT mk negb].
     apply (gen_repl_subst gs body cur g Eg).
   Qed.
+
+  (* a macro declared with an empty replacement (\label, \index, ...): the
+     contents of its groups never reach the output *)
+  Theorem dropped_arguments fuel st buf rest mac start gs :
+    m_args mac = repeat AMand (length gs) -> m_extract mac = [] -> m_repl mac = RToks [] ->
+    groups gs buf rest ->
+    expand_arguments T rd rec fuel st buf mac start = Ok (st, ([ActionT start], rest)).
+  Proof.
+    intros Ha He Hr Hg.
+    rewrite (expand_braced_call fuel st buf rest mac start gs [] Ha He Hr Hg).
+    reflexivity.
+  Qed.
 End ArgSites.
